@@ -11,6 +11,7 @@ mod c01;
 mod c02;
 mod c03;
 mod c04;
+mod c06;
 mod c07;
 mod c17;
 
@@ -41,6 +42,11 @@ const PROPS: &[PropDef] = &[PropDef {
     level: "exploration",
     run: c04::run,
     replay: c04::replay,
+}, PropDef {
+    id: "C06",
+    level: "exploration",
+    run: c06::run,
+    replay: c06::replay,
 }, PropDef {
     id: "C07",
     level: "exploration",
